@@ -53,7 +53,9 @@ def gen_coop():
         'time': ('time', MOD + '/time'),
     }
     total = 0
-    pkgs = ['protocol/lavasession']
+    # rewardserver (C29): no anchors needed — its harnesses build the server without saveRewardsSnapshotToDBJob
+    # (select on timer/threshold channels) and never reach UpdateEpoch's delay loop
+    pkgs = ['protocol/lavasession', 'protocol/rpcprovider/rewardserver']
     # single files of other packages: utils.LavaMutex guards the consumer sessions (its TryLock/Unlock must be points)
     extra_files = ['utils/locks.go']
     # anchors (exact text after gorewrite -> replacement); every anchor must match exactly once
